@@ -1365,6 +1365,33 @@ def cases(rng, tier, seed):
             if c:
                 c.meta['group'] = list(prefix)     # the replay re-runs the constructions that shared the objects
                 out.append(c)
+    # --- round 2 (class L8): ONE 0-d time object in TWO roles of one call (t0 AND interval, t0 AND duration, interval AND duration),
+    # then again in the next constructions of the group; the expectation is the one for independent equal-valued arguments (the model
+    # line only knows values); construct_seq steps 5/6 change the argument / the result in place afterwards
+    for _ in range(50 * k):
+        u0 = rng.choice(UNITS)
+        n = rng.randint(1, 400)
+        ps = rng.choice([1, 3, 10**3, 10**6 + 1, 2 * 10**9, 10**12, 7 * 10**12, rng.randint(1, 10**13)])
+        if ps * n * 2 >= LIM // 64:
+            continue
+        Z = ('T', rng.choice(UNITS), int(ps))
+        ZN = ('T', rng.choice(UNITS), int(ps) * n)          # an extent that is also used as the start
+        shared = {}
+        group = [('u', {'axis': None, 'length': n, 'duration': None, 'rate': None, 'interval': Z, 't0': Z, 'unit': rng.choice(UNITS + ['none'])}),
+                 ('s', {'n': n, 'ndim': rng.choice([1, 2]), 't0': Z, 'interval': Z, 'rate': None, 'duration': None, 'unit': rng.choice(UNITS + ['none'])}),
+                 ('u', {'axis': None, 'length': None, 'duration': Z, 'rate': None, 'interval': Z, 't0': Z, 'unit': rng.choice(UNITS + ['none'])}),
+                 ('u', {'axis': None, 'length': None, 'duration': ZN, 'rate': None, 'interval': Z, 't0': ZN, 'unit': rng.choice(UNITS)}),
+                 ('u', {'axis': None, 'length': n, 'duration': ZN, 'rate': None, 'interval': None, 't0': ZN, 'unit': rng.choice(UNITS)}),
+                 ('s', {'n': n, 'ndim': 1, 't0': ZN, 'interval': None, 'rate': None, 'duration': ZN, 'unit': rng.choice(UNITS)})]
+        rng.shuffle(group)
+        prefix = []
+        for kind, sp in group[:rng.randint(2, 4)]:
+            c = make_uniform_case(sp, shared) if kind == 'u' else make_series_case(sp, shared)
+            prefix.append([kind, sp])
+            if c:
+                c.meta['group'] = list(prefix)
+                c.meta['one_object_two_roles'] = True
+                out.append(c)
     # --- series
     for sp in [{'n': 100, 'ndim': 1, 't0': None, 'interval': ('f', 2.2), 'rate': None, 'duration': None, 'unit': 'm'},
                {'n': 10, 'ndim': 1, 't0': None, 'interval': None, 'rate': None, 'duration': ('i', 10), 'unit': 'default'},
